@@ -86,11 +86,15 @@ func init() {
 		mask := c.Choose(1 << uint(len(set)))
 		form := c.Choose(len(words) + 1) // 0 = no word at all (missing-command form)
 		history := c.Deviate(3)          // 0 fresh parser; 1 the parser selected a command before; 2 the hidden marks are set after a first failing parse
+		optv := c.Deviate(3)             // 1: PassAfterNonOption is set; 2: PassDoubleDash is set and the word follows the terminator
 		var argv []string
 		word := ""
 		if form > 0 {
 			word = words[form-1]
 			argv = []string{word}
+		}
+		if optv == 2 {
+			argv = append([]string{"--"}, argv...)
 		}
 		var visible []string
 		for i, n := range set {
@@ -103,10 +107,13 @@ func init() {
 		}
 		sort.Strings(visible)
 		c.Describe(func() interface{} {
-			return map[string]interface{}{"commands": set, "hidden_mask": mask, "argv": argv, "history": []string{"fresh parser", "a command was selected by an earlier parse", "hidden marks set after a first failing parse"}[history]}
+			return map[string]interface{}{"commands": set, "hidden_mask": mask, "argv": argv, "parser_options": []string{"None", "PassAfterNonOption", "PassDoubleDash"}[optv], "history": []string{"fresh parser", "a command was selected by an earlier parse", "hidden marks set after a first failing parse"}[history]}
 		})
 
-		p := flags.NewNamedParser("app", flags.None)
+		p := flags.NewNamedParser("app", []flags.Options{flags.None, flags.PassAfterNonOption, flags.PassDoubleDash}[optv])
+		if optv != 0 {
+			c.Hit("other-option-set")
+		}
 		// registration order is the reverse of sorted order so that sorting is the library's job
 		var cmds []*flags.Command
 		for i := len(set) - 1; i >= 0; i-- {
@@ -227,10 +234,10 @@ func init() {
 		Body:       body,
 		DevBound:   func(bool) int { return 1 },
 		Rule: "every set of 1..3 command names (all strings of length 1..3 over {q,z,é}; thorough adds all of length <= 2 over {q,z,é,j}), every hidden mask, " +
-			"x every word (all strings <= 2 over 7 characters and of length 3 over 4 of them quick / <= 2 over 8 characters and of length 3..4 over 4 of them thorough, drawn from the letters plus the foreign characters ß (2 bytes), € (3 bytes), ũ (2 bytes, same last byte as é) and %, the empty word, and no word at all) x {fresh parser, parser on which an earlier parse selected a command, hidden marks changed after a first diagnosis on the same parser}; " +
+			"x every word (all strings <= 2 over 7 characters and of length 3 over 4 of them quick / <= 2 over 8 characters and of length 3..4 over 4 of them thorough, drawn from the letters plus the foreign characters ß (2 bytes), € (3 bytes), ũ (2 bytes, same last byte as é) and %, the empty word, and no word at all) x {fresh parser, parser on which an earlier parse selected a command, hidden marks changed after a first diagnosis on the same parser} (or, instead, PassAfterNonOption set / PassDoubleDash set with the word after the terminator: the diagnosis is the same); " +
 			"oracle = textbook rune Levenshtein + the < 1/2 rule; distinct = distinct (error type, names mentioned, suggestion?) observations",
 		Assumptions:  []string{"names mentioned by a message are read back as maximal runs of the alphabet letters, which do not occur in the message templates", "ties between nearest names: any minimiser accepted", "threshold accepted with the name length in bytes or in characters"},
-		RequiredHits: []string{"missing-command", "suggestion", "enumeration", "used-parser"},
+		RequiredHits: []string{"missing-command", "suggestion", "enumeration", "used-parser", "other-option-set"},
 		Bound:        [2]string{"name sets <=3 of names <=3 over 3 letters; words <=3 over 7 characters", "name sets <=3 of names <=3 over 4 letters; words <=4 over 8 characters"},
 		BudgetS:      [2]int{170, 1500},
 	})
